@@ -122,7 +122,8 @@ macro_rules! family {
                 let mut upd = |m: f64, d: String| { if m > worst.0 || m.is_nan() { worst = (if m.is_nan() { f64::INFINITY } else { m }, d); } };
                 for v in &p.uv3 { upd(((v.length_squared() - 1.0).abs() as f64) / 2e-4, format!("unit Vec3 {:?}", v)); }
                 for v in &p.uv2 { upd(((v.length_squared() - 1.0).abs() as f64) / 2e-4, format!("unit Vec2 {:?}", v)); }
-                for q in &p.uq { upd(((q.length_squared() - 1.0).abs() as f64) / 2e-4, format!("unit Quat {:?}", q)); }
+                for q in &p.uq { upd(((q.length_squared() - 1.0).abs() as f64) / 2e-4, format!("unit Quat {:?}", q)); if !q.is_normalized() { upd(f64::INFINITY, format!("Quat {:?} produced as a unit quaternion fails is_normalized()", q)); } }
+                for v in &p.uv3 { if !v.is_normalized() { upd(f64::INFINITY, format!("{:?} produced as a unit vector fails is_normalized()", v)); } }
                 for m in &p.r3 { for c in 0..3 { upd(((m.col(c).length_squared() - 1.0).abs() as f64) / 2e-4, format!("rotation Mat3 {:?}", m)); } }
                 for m in &p.am4 { let r = m.row(3); let d = (r - <$V4>::W).abs().max_element() as f64; upd(d / 1e-6, format!("affine Mat4 {:?}", m)); }
                 worst
